@@ -490,7 +490,7 @@ F('c10-le', {'C10': ['R10.1']}, [(OLDER, "return deletion_date < limit_date", "r
 F('c10-hours', {'C10': ['R10.1']}, [(OLDER, "timedelta(days=days_ago)", "timedelta(hours=days_ago)")], 'hours instead of days')
 F('c10-no-subtraction', {'C10': ['R10.1']}, [(OLDER, "return deletion_date < limit_date", "return deletion_date < now_value")],
   'compared against now')
-F('c10-undated-deleted', {'C10': ['R10.2']}, [(DAD, "            return False\n", "            return True\n")],
+F('c10-undated-deleted', {'C10': ['R10.2']}, [(DAD, "                    return True\n            return False\n", "                    return True\n            return True\n")],
   'undated entries are purged when DAYS is given')
 F('c10-none-compared', {'C10': ['R10.2']}, [(DAD,
   "            if deletion_date is not None:\n                if older_than(parsed_days, now_value, deletion_date):\n                    return True",
